@@ -1048,6 +1048,7 @@ type vProfile struct {
 	multiGPU    int  // per mille of histories with a non-metal / multi-GPU inventory (each unload costs real time)
 	optVariants bool // vary ctx / num_gpu / batch / adapters (reload decisions)
 	vramPressure bool // GPU sizes and mock VRAM chosen so that co-loading sometimes does not fit
+	lateLoad     int  // per mille of histories that are the "load succeeds for a requester who has left" scenario
 }
 
 func contextWithCancel(w *vWorld) (context.Context, context.CancelFunc) { return context.WithCancel(w.ctx) }
@@ -1158,6 +1159,28 @@ func vGenHistory(r *kit.Rand, idx int, p vProfile) *vHistory {
 			{holder},
 			{{Op: "sleep", SleepUs: 3000}, blocker},
 			{{Op: "sleep", SleepUs: 8000}, burst},
+		}
+		h.NReq = nextReq - 1
+		return h
+	}
+	if r.Intn(1000) < p.lateLoad {
+		// A's load becomes ready although A has cancelled meanwhile; B and C ask for the same model right behind it
+		// and hold it; short keep-alives and an explicit unload make any stray reference release visible as a Close
+		h.Profile = p.name + "/late-load"
+		a := vAction{Op: "req", Req: nextReq, Model: 0, NumCtx: 8, NumGPU: -1, KeepAliveUs: kit.Pick(r, []int{0, 1000, 5000}), LoadMode: "ok-late",
+			LoadDelayUs: kit.Pick(r, []int{1000, 3000}), CancelAt: r.Range(2, 12)}
+		nextReq++
+		b := vAction{Op: "req", Req: nextReq, Model: 0, NumCtx: 8, NumGPU: -1, KeepAliveUs: kit.Pick(r, []int{0, 1000, 5000}), Hold: 64, LoadMode: "ok"}
+		nextReq++
+		c := vAction{Op: "req", Req: nextReq, Model: 0, NumCtx: 8, NumGPU: -1, KeepAliveUs: kit.Pick(r, []int{0, 1000}), Hold: 32, LoadMode: "ok"}
+		nextReq++
+		d := vAction{Op: "req", Req: nextReq, Model: r.Intn(2), NumCtx: 8, NumGPU: -1, KeepAliveUs: 1000, Hold: 16, LoadMode: "ok"}
+		nextReq++
+		h.Clients = [][]vAction{
+			{a},
+			{{Op: "sleep", SleepUs: kit.Pick(r, []int{100, 400})}, b},
+			{{Op: "sleep", SleepUs: kit.Pick(r, []int{300, 1500})}, c, {Op: "unload", Model: 0}},
+			{{Op: "sleep", SleepUs: kit.Pick(r, []int{2000, 6000})}, d},
 		}
 		h.NReq = nextReq - 1
 		return h
